@@ -78,6 +78,74 @@ Proof.
   replace (d * c1 + d) with (d * (c1 + 1)) by lia. apply N.mul_le_mono_l. lia.
 Qed.
 
+
+(* ------------------------------------------------------------------ *)
+(* lowbit m = m & -m is the lowest set bit: a power of two dividing    *)
+(* every value masked by m (no contiguity of the mask needed)          *)
+(* ------------------------------------------------------------------ *)
+Lemma odd_decomp : forall p : positive, exists k q, Npos p = 2 ^ k * (2 * q + 1).
+Proof.
+  induction p as [p IH|p IH|].
+  - exists 0, (Npos p). rewrite N.pow_0_r. lia.
+  - destruct IH as (k & q & E). exists (N.succ k), q. rewrite N.pow_succ_r'.
+    replace (N.pos p~0) with (2 * N.pos p) by lia. rewrite E. lia.
+  - exists 0, 0. reflexivity.
+Qed.
+
+Lemma land_odd_odd q p : N.land (2 * q + 1) (2 * p + 1) = 2 * N.land q p + 1.
+Proof.
+  apply N.bits_inj. intro n. rewrite N.land_spec.
+  destruct (N.eq_dec n 0) as [->|Hn].
+  - rewrite !N.testbit_odd_0. reflexivity.
+  - replace n with (N.succ (N.pred n)) by lia. rewrite !N.testbit_odd_succ by lia.
+    rewrite N.land_spec. reflexivity.
+Qed.
+
+Lemma land_compl q n : q < 2 ^ n -> N.land q (N.ones n - q) = 0.
+Proof.
+  intro Hq. destruct (N.eq_dec q 0) as [->|Hq0]; [apply N.land_0_l|].
+  assert (Hl : N.ldiff q (N.ones n) = 0).
+  { apply N.ldiff_ones_r_low. apply N.log2_lt_pow2; lia. }
+  rewrite (N.sub_nocarry_ldiff _ _ Hl).
+  apply N.bits_inj. intro i. rewrite N.land_spec, N.ldiff_spec, N.bits_0.
+  destruct (N.testbit q i); [|reflexivity]. cbn. apply andb_false_r.
+Qed.
+
+Lemma lowbit_pow2 mask : mask <> 0 -> mask < W64 -> exists k, lowbit mask = 2 ^ k /\ mask mod 2 ^ k = 0.
+Proof.
+  intros H0 Hlt. destruct mask as [|p]; [contradiction|].
+  destruct (odd_decomp p) as (k & q & E). exists k. rewrite E in *. clear E p H0.
+  assert (P0 : 2 ^ k <> 0) by (apply N.pow_nonzero; discriminate).
+  split; [|rewrite N.mul_comm; apply N.mod_mul; exact P0].
+  change W64 with (2 ^ 64) in *.
+  assert (Hk : k < 64).
+  { destruct (N.lt_ge_cases k 64) as [|G]; [assumption|].
+    assert (2 ^ 64 <= 2 ^ k) by (apply N.pow_le_mono_r; [discriminate|exact G]). nia. }
+  set (n := 63 - k).
+  assert (E64 : 2 ^ 64 = 2 ^ k * (2 * 2 ^ n)).
+  { rewrite <- N.pow_succ_r', <- N.pow_add_r. f_equal. unfold n. lia. }
+  assert (Hq : q < 2 ^ n).
+  { rewrite E64 in Hlt. apply N.mul_lt_mono_pos_l in Hlt; lia. }
+  unfold lowbit, wneg. change W64 with (2 ^ 64).
+  rewrite (N.mod_small _ _ Hlt).
+  assert (Ew : (2 ^ 64 - 2 ^ k * (2 * q + 1)) mod 2 ^ 64 = 2 ^ k * (2 * (N.ones n - q) + 1)).
+  { rewrite N.mod_small by lia. rewrite E64. rewrite N.ones_equiv.
+    replace (2 * (N.pred (2 ^ n) - q) + 1) with (2 * 2 ^ n - (2 * q + 1)) by lia.
+    rewrite N.mul_sub_distr_l. reflexivity. }
+  rewrite Ew.
+  rewrite !(N.mul_comm (2 ^ k)), <- !N.shiftl_mul_pow2, <- N.shiftl_land, land_odd_odd, land_compl by exact Hq.
+  rewrite N.shiftl_mul_pow2. lia.
+Qed.
+
+Lemma lowbit_facts mask : mask <> 0 -> mask < W64 ->
+  0 < lowbit mask /\ forall x, N.land x mask mod lowbit mask = 0.
+Proof.
+  intros H0 Hlt. destruct (lowbit_pow2 mask H0 Hlt) as (k & -> & Hm).
+  assert (P0 : 2 ^ k <> 0) by (apply N.pow_nonzero; discriminate).
+  split; [lia|]. intro x.
+  rewrite <- N.land_ones, <- N.land_assoc, N.land_ones, Hm. apply N.land_0_r.
+Qed.
+
 (* ------------------------------------------------------------------ *)
 Section A.
 Variables (l r : list N) (mask delta : N).
@@ -930,3 +998,103 @@ Qed.
 End Fused.
 
 End A.
+
+(* ================================================================== *)
+(* C12, adjacency kernels                                              *)
+(* ================================================================== *)
+(* No overflow hypothesis is needed here: the kernel only subtracts delta from non-zero masked rhs values
+   (the adj_skip pre-loop), which are >= delta, so nothing wraps. *)
+Theorem adjacent_correct : forall l r mask,
+  msorted l mask -> msorted r mask ->
+  N.of_nat (length l) < 2^62 -> N.of_nat (length r) < 2^62 ->
+  mask <> 0 -> mask < W64 ->
+  adjacent l r mask = Done (adjacent_spec l r mask (lowbit mask)).
+Proof.
+  intros l r mask HsL HsR Hnl Hnr Hm0 Hmw.
+  destruct (lowbit_facts mask Hm0 Hmw) as [Hd Hmul].
+  pose proof (Intersect_Safe.adjacent_terminates l r mask Hnl Hnr) as T.
+  destruct (adjacent l r mask) as [out| |] eqn:E; cbn [is_done] in T; try contradiction.
+  f_equal.
+  apply (adjacent_pc l r mask (lowbit mask) HsL HsR Hd Hmul
+           (fun x => Intersect_Safe.land_mask_small mask x Hmw) out E eq_refl).
+Qed.
+
+(* The right index of an intersection pair is SOME occurrence of the common masked value (the right
+   gallop may land inside a run); the adjacency pairs are exactly the first-occurrence pairs. *)
+Theorem intersect_with_adjacents_correct : forall l r mask,
+  msorted l mask -> msorted r mask ->
+  N.of_nat (length l) < 2^62 -> N.of_nat (length r) < 2^62 ->
+  mask <> 0 -> mask < W64 ->
+  (forall a, In a l -> N.land a mask + lowbit mask < W64) ->
+  exists o, intersect_with_adjacents l r mask = Done o /\
+    ia_lo o = fst (intersect_drop_spec l r mask) /\
+    length (ia_ro o) = length (ia_lo o) /\
+    (forall k a b, nth_error (ia_lo o) k = Some a -> nth_error (ia_ro o) k = Some b ->
+        b < N.of_nat (length r) /\
+        N.land (nth (N.to_nat b) r 0) mask = N.land (nth (N.to_nat a) l 0) mask) /\
+    (ia_alo o, ia_aro o) = adjacent_spec l r mask (lowbit mask).
+Proof.
+  intros l r mask HsL HsR Hnl Hnr Hm0 Hmw Hov.
+  destruct (lowbit_facts mask Hm0 Hmw) as [Hd Hmul].
+  pose proof (Intersect_Safe.intersect_with_adjacents_terminates l r mask (or_introl Hmw) Hnl Hnr) as T.
+  destruct (intersect_with_adjacents l r mask) as [o| |] eqn:E; cbn [is_done] in T; try contradiction.
+  exists o. split; [reflexivity|].
+  apply (ia_pc l r mask (lowbit mask) HsL HsR Hd Hmul
+           (fun x => Intersect_Safe.land_mask_small mask x Hmw)); [|exact E|reflexivity].
+  intros a Ha. unfold ml. apply Hov. apply nth_In. lia.
+Qed.
+
+(* Each hypothesis is needed:
+   - mask = 0:  adjacent [1;2] [1;2] 0 = Done ([],[]) but the spec (delta = 0, all masked values 0) is ([0],[0]);
+     the fused kernel then also drops the intersection.
+   - overflow (fused kernel only):  with mask 0xF000000000000000 (delta 2^60),
+     intersect_with_adjacents [15 * 2^60] [0] mask reports the adjacency (0, 0): 15*2^60 + 2^60 wraps to 0. *)
+Example adjacent_mask0 :
+  adjacent [1;2] [1;2] 0 = Done ([], []) /\ adjacent_spec [1;2] [1;2] 0 (lowbit 0) = ([0], [0]).
+Proof. vm_compute. split; reflexivity. Qed.
+Example fused_overflow :
+  let m := 17293822569102704640 in let u := 1152921504606846976 in
+  lowbit m = u /\
+  (exists o, intersect_with_adjacents [15 * u] [0] m = Done o /\ ia_alo o = [0] /\ ia_aro o = [0]) /\
+  adjacent_spec [15 * u] [0] m u = ([], []).
+Proof. vm_compute. split; [reflexivity|]. split; [|reflexivity]. eexists. split; [reflexivity|]. split; reflexivity. Qed.
+(* the intersection's right index is not always the first occurrence *)
+Example fused_right_index_any_occurrence :
+  exists o, intersect_with_adjacents [0;0;0;2] [1;1;2;2] wmask = Done o /\
+    ia_lo o = [3] /\ ia_ro o = [3] /\ intersect_drop_spec [0;0;0;2] [1;1;2;2] wmask = ([3], [2]).
+Proof. vm_compute. eexists. split; [reflexivity|]. repeat split; reflexivity. Qed.
+
+(* executable sanity checks of both statements (duplicate runs, zero masked value on the right, a common
+   value repeated on the right) under the three masks used by the callers *)
+Fixpoint leqN (a b : list N) : bool :=
+  match a, b with [] , [] => true | x :: a', y :: b' => (x =? y) && leqN a' b' | _, _ => false end.
+Fixpoint all2N (f : N -> N -> bool) (a b : list N) : bool :=
+  match a, b with [], [] => true | x :: a', y :: b' => f x y && all2N f a' b' | _, _ => false end.
+Definition chk_adj (l r : list N) (mask : N) : bool :=
+  match adjacent l r mask with
+  | Done (a, b) => let s := adjacent_spec l r mask (lowbit mask) in leqN a (fst s) && leqN b (snd s)
+  | _ => false end.
+Definition chk_ia (l r : list N) (mask : N) : bool :=
+  match intersect_with_adjacents l r mask with
+  | Done o => let s := adjacent_spec l r mask (lowbit mask) in
+      leqN (ia_lo o) (fst (intersect_drop_spec l r mask)) &&
+      all2N (fun a b => (b <? N.of_nat (length r)) && (mr r mask b =? ml l mask a)) (ia_lo o) (ia_ro o) &&
+      leqN (ia_alo o) (fst s) && leqN (ia_aro o) (snd s)
+  | _ => false end.
+Definition hdr_mask : N := 18446744073709289472.      (* delta 2^18 *)
+Definition top4_mask : N := 17293822569102704640.     (* 0xF000000000000000, delta 2^60 *)
+Definition units (d : N) (vs : list N) : list N :=
+  map (fun iv => fst iv * 5 mod d + snd iv * d) (enum vs).   (* v units plus noise below the mask *)
+Definition samples : list (list N * list N) :=
+  [ ([], []); ([0], []); ([], [1]); ([0], [0]); ([0], [1]); ([1], [0]);
+    ([0;0;0;2], [1;1;2;2]); ([0;0;1;1;2], [0;0;1;2;2;3;3]); ([0;1;2;3], [0;0;0;0;1;1;1;1;2;2;2;2;3;3;3;3;4]);
+    ([0;0;0;0;0;0;0;0;0;1;5], [0;1;1;1;1;1;1;1;1;1;1;1;2;6;6]); ([3;4;7;7;9], [0;0;4;5;8;8;8;8;8;8;10]);
+    ([1;1;1;1;1;1;1;1;2;2;2;2;2;2;2;3], [2;2;2;2;2;2;2;2;2;3;3;3;3;3;3;3;3;4]); ([2;5;9;14], [0;3;6;10;15;15]) ].
+Example sanity_checks :
+  forallb (fun m => forallb (fun lr => chk_adj (units (lowbit m) (fst lr)) (units (lowbit m) (snd lr)) m &&
+                                       chk_ia (units (lowbit m) (fst lr)) (units (lowbit m) (snd lr)) m) samples)
+          [wmask; hdr_mask; top4_mask] = true.
+Proof. vm_compute. reflexivity. Qed.
+
+Print Assumptions adjacent_correct.
+Print Assumptions intersect_with_adjacents_correct.
